@@ -44,6 +44,7 @@ CONSTANTS
   MaxHeld = {held}
   Cuts = {cuts}
   KnownDefects <- {defects}
+  TreeTraits <- {traits}
   ShardK = {k}
   ShardS = {s}
   CfgNs = {ns}
@@ -65,15 +66,28 @@ CONSTANTS
   MaxHeld = 0
   Cuts = FALSE
   KnownDefects <- TrNone
+  TreeTraits <- TrNone
 CHECK_DEADLOCK FALSE
 """
 ALL = dict(ns="{1, 2}", rets='{"F", "0", "1", "R2"}', routes='{"direct", "fwd"}', modes="{1, 2, 3, 4}")
 
 
+TRAITS = {"v": None}
+
+
+def detect_traits():
+    """Behaviours of the tree under test that the Model takes as a parameter (they do not matter to the Rules)."""
+    if TRAITS["v"] is None:
+        r = ph.run_scenario({"cfg": dict(n=1, block=False, retries="F", preload=False, release=False, route="direct"),
+                             "steps": [{"op": "req", "id": 1, "atts": ["ok_ka"]}, {"op": "disp", "id": 1, "how": "release"}]})
+        TRAITS["v"] = "MCTraitsOldRelease" if r["obs"]["fin"]["pooled_open"] == 1 else "MCTraitsNone"
+    return TRAITS["v"]
+
+
 def plan_cfg(plan, k=1, s=0, emit=False, invs=True, defects="MCNoDefects"):
     d = dict(ALL)
     d.update(plan)
-    return MC_CFG.format(k=k, s=s, defects=defects, emit="ACTION_CONSTRAINT Emit" if emit else "",
+    return MC_CFG.format(k=k, s=s, defects=defects, traits=detect_traits(), emit="ACTION_CONSTRAINT Emit" if emit else "",
                          invs="\n".join("INVARIANT " + i for i in INVARIANTS) if invs else "", **d)
 
 
@@ -162,7 +176,7 @@ def sc_key(sc):
 class Judge:
     """Collects (scenario, trace) pairs, has TLC judge them in batches, classifies the verdicts."""
 
-    def __init__(self, batch=1500):
+    def __init__(self, batch=4000):
         self.batch = batch
         self.pending = []
         self.n = 0
@@ -173,7 +187,8 @@ class Judge:
         self.keys = set()
         self.samples = []
         self.clause_counts = {}
-        self.before_drop_open = 0
+        self.skipped_dev = 0
+        self.compared = 0
 
     def add(self, sc, with_expectations):
         try:
@@ -210,8 +225,13 @@ class Judge:
                     self.bad.append((clause, pos, sc, facts_of(sc, r["events"], clause), r["events"][:pos]))
                 else:
                     self.bad.append((clause, pos, sc, facts_of(sc, r["events"], clause), None))
+            elif withexp and any(st.get("dev") for st in sc["steps"]):
+                # the history passes a point where a recorded deviation (D14) changes what follows: the Model's
+                # expectations describe the repaired design there; only the Rules verdict applies
+                self.skipped_dev += 1
             elif withexp:
                 d = ph.compare(sc, r["obs"])
+                self.compared += 1
                 if d and len(self.drift) < 50:
                     self.drift.append("; ".join(d) + " :: " + json.dumps({"cfg": sc["cfg"], "steps": [
                         {k: st[k] for k in ("op", "id", "atts", "how")} for st in sc["steps"]]}))
@@ -222,7 +242,8 @@ class Judge:
     def result(self):
         self.flush()
         return {"n": self.n, "events": self.events, "bad": self.bad, "drift": self.drift, "machinery": self.machinery,
-                "keys": self.keys, "samples": self.samples, "clauses": self.clause_counts}
+                "keys": self.keys, "samples": self.samples, "clauses": self.clause_counts,
+                "compared": self.compared, "skipped_dev": self.skipped_dev}
 
 
 def _warm():
@@ -317,6 +338,8 @@ def _absorb(rep, findings, outs, counters):
         rep.traces += o["n"]
         rep.evaluations += o["n"]
         counters["events"] += o["events"]
+        counters["compared"] = counters.get("compared", 0) + o["compared"]
+        counters["skipped_dev"] = counters.get("skipped_dev", 0) + o["skipped_dev"]
         rep.nontrivial.update(o["keys"])
         for k, v in o["clauses"].items():
             counters["clauses"][k] = counters["clauses"].get(k, 0) + v
@@ -339,6 +362,7 @@ def run(rep):
     findings = known.load("C01")
     plans = QUICK_PLANS if quick else THOROUGH_PLANS
     counters = {"events": 0, "clauses": {}, "known": 0}
+    rep.extra["tree_traits"] = detect_traits()
     rep.rule = ("a history is non-trivial when it contains a fault, retry, redirect, non-2xx reply, a server cut or a "
                 "disposal other than read-all (i.e. anything but single clean 200 requests read to the end); "
                 "distinct_nontrivial counts distinct (configuration, steps) keys; every history is executed on the real "
@@ -400,6 +424,8 @@ def run(rep):
     rep.extra["trace_events"] = counters["events"]
     rep.extra["verdicts"] = counters["clauses"]
     rep.extra["known_finding_traces"] = counters["known"]
+    rep.extra["expectations_compared"] = counters.get("compared", 0)
+    rep.extra["expectations_skipped_at_known_deviation"] = counters.get("skipped_dev", 0)
     if counters["clauses"].get("ok", 0) == 0:
         raise tlc.MachineryError("no trace was accepted: the monitor is not judging anything")
     rep.exhaustive = True
